@@ -256,9 +256,7 @@ func genC05(seed uint64, tier, outdir string) *Report {
 			}
 		}
 		rep.Hist(fmt.Sprintf("t:period=%d", period))
-		for _, m := range mons {
-			m(rep, c)
-		}
+		runL1Monitors(rep, c, seed*100000+50000+uint64(k), mons) // monitors + minimisation of a failing history
 		rep.Ops += len(c.Ops)
 		rep.CountCase(strings.Join(l1OpsHuman(c.Ops), "\n"), okK["finalize"] && errK["finalize"] && okK["delete"] && errK["delete"])
 		if k == 2 {
